@@ -77,6 +77,8 @@ func verifObsGlobals() Map {
 func verifObsModules() *ModuleMap {
 	mm := NewModuleMap()
 	mm.AddSourceModule("obsmod", []byte(`return {v: 41 + 1}`))
+	mm.AddSourceModule("firstmod", []byte(`return {v: 7, w: [1]}`))
+	mm.AddBuiltinModule("firstgo", map[string]Object{"v": Int(5), "box": Map{"k": Int(1)}})
 	return mm
 }
 
@@ -256,6 +258,66 @@ func VerifC06Edge() {
 	verifrt.Reached("end")
 }
 
+// VerifC06Args: the host passes 0..4 arguments (a slice without spare
+// capacity, and one with) to main functions with every shape of parameter
+// list; Run binds them before entering its recovered region, so nothing may
+// panic there either. Missing named parameters are undefined, the variadic
+// parameter collects the rest.
+func VerifC06Args() {
+	forms := [...]string{
+		"return 1",
+		"param a\nreturn [a]",
+		"param (a, b)\nreturn [a, b]",
+		"param (...c)\nreturn [c]",
+		"param (a, ...c)\nreturn [a, c]",
+		"param (a, b, ...c)\nreturn [a, b, c]",
+		"param (a, b, d, ...c)\nreturn [a, b, d, c]",
+	}
+	named := [...]int{0, 1, 2, 0, 1, 2, 3}
+	variadic := [...]bool{false, false, false, true, true, true, true}
+	f := verifrt.Param("form")
+	n := verifrt.Choice("nargs", 5)
+	spare := verifrt.Choice("spare", 2)
+	args := make([]Object, n, n+4*spare)
+	for i := range args {
+		args[i] = Int(int64(10 + i))
+	}
+	bc, err := Compile([]byte(forms[f]), CompilerOptions{NoOptimize: verifrt.Param("opt") == 0})
+	verifrt.Assert(err == nil, "compiles")
+	if err != nil {
+		return
+	}
+	vm := NewVM(bc).SetRecover(true)
+	var v Object
+	var rerr error
+	verifrt.NoPanic("no-panic-escapes-run", func() { v, rerr = vm.Run(nil, args...) })
+	verifrt.Assert(verifIsValueOrError(v, rerr), "value-or-error")
+	if rerr == nil && f > 0 {
+		// expected binding
+		want := Array{}
+		for i := 0; i < named[f]; i++ {
+			if i < n {
+				want = append(want, args[i])
+			} else {
+				want = append(want, Undefined)
+			}
+		}
+		if variadic[f] {
+			rest := Array{}
+			for i := named[f]; i < n; i++ {
+				rest = append(rest, args[i])
+			}
+			want = append(want, rest)
+		}
+		verifrt.AssertMsg(verifSameObject(v, want), "host-arguments-bound-as-documented", v.String())
+	}
+	// and the VM is usable afterwards
+	var v2 Object
+	verifrt.NoPanic("second-run-no-panic", func() { v2, _ = vm.Run(nil, args...) })
+	verifrt.Assert(rerr != nil || verifSameObject(v, v2), "second-run-same")
+	verifrt.Reached("end")
+}
+
 // ---------------------------------------------------------------------------
 // C07: histories
 
@@ -276,6 +338,10 @@ var verifC07First = [...]string{
 	"f := func() { try { return 1 } finally { throw \"fin\" } }\ntry { f() } catch e { }\nreturn f()",
 	// abort while a pooled child VM runs a script function inside a Go callback
 	"f := func() { abort(); for i := 0; i < 100; i++ { } ; return 1 }\nreturn callback(f)",
+	// modules of its own (other modules than the observation script's, at the same cache indexes), with state
+	"m := import(\"firstmod\")\nm.v = 99\ng := import(\"firstgo\")\ng.box.k = 2\nreturn [m.v, g.box.k]",
+	// the same from inside a function run by a pooled child VM, ending with an error
+	"f := func() { m := import(\"firstgo\"); m.v = 6; x := import(\"firstmod\"); x.w[0] = 2; throw \"after imports\" }\nreturn callback(f)",
 	// error escaping from a pooled child VM's nested call, then a second pooled call
 	"var f\nf = func(n) { if n == 0 { throw \"deep\" }; return f(n - 1) }\ntry { callback(func() { return f(2) }) } catch e { out(e.Message) }\nreturn callback(func() { return 7 })",
 }
